@@ -27,7 +27,7 @@ GInit == Init /\ hist = <<>>
 
 Log(r) == /\ Len(hist) < Depth
           /\ hist' = Append(hist, r)
-          /\ (Len(hist') < Depth \/ PrintT(<<"VERIF_HIST", ToJson([small |-> TRUE, ops |-> PrefixFixed \o hist'])>>))
+          /\ (IF Len(hist') < Depth THEN TRUE ELSE PrintT(<<"VERIF_HIST", ToJson([small |-> TRUE, ops |-> PrefixFixed \o hist'])>>))
 
 GNext ==
   \/ \E t \in TXs, k \in Keys :
